@@ -151,7 +151,21 @@ fn acc_case(toks: &[String]) -> (String, bool) {
         let mut h = sh.held.lock().unwrap();
         if k < h.len() {
             if let Some(x) = h[k].take() {
-                drop(x);
+                // however the owner of a Token ends, the slot comes back: by turns it is dropped here, dropped on
+                // another thread, and dropped while its thread unwinds from a panic (a connection task that panics)
+                match k % 3 {
+                    0 => drop(x),
+                    1 => {
+                        let _ = std::thread::spawn(move || {
+                            let _owned = x;
+                            panic!("connection task panics (scripted)");
+                        })
+                        .join();
+                    }
+                    _ => {
+                        let _ = std::thread::spawn(move || drop(x)).join();
+                    }
+                }
                 sh.gauge.fetch_sub(1, SeqCst);
             }
         }
